@@ -201,7 +201,12 @@ class SQLLexer(Lexer):
     LESS = r'<'
     AND = r'\bAND\b'
     OR = r'\bOR\b'
-    IS_NOT = r'\bIS[\s]+NOT\b'
+    # the two words may be separated by blanks and comments; the value of the token is the two words
+    @_(r'\bIS(?:\s|/\*(?:[^*]|\*(?!/))*\*/|--[^\n]*\n)+NOT\b')
+    def IS_NOT(self, t):
+        t.value = ' '.join(re.sub(r'/\*[\s\S]*?\*/|--[^\n]*\n', ' ', t.value).split())
+        return t
+
     NOT = r'\bNOT\b'
     IS = r'\bIS\b'
     LIKE = r'\bLIKE\b'
